@@ -18,12 +18,28 @@ NOT_SHOWN = {
         "(cel0 returns without a pass, celv after its forced first pass: celv_ne_cel0_in_band gives the two different real values pi/(1+k) and 2pi/(1+sqrt k)^2; measured on the "
         "real code <= 7e-11 relative in cel, <= 8e-13 relative in Cylinder getB / getH for observers within 5e-7 radii of the axis, 1 vs >= 10 observers — far below the oracle's "
         "1e-7, above the few-ulp level) and at kc = 0 (cel0 raises, celv does not return: Props/C15 celv_loops_at_zero)",
-        "not tied into the Cylinder model: Model/Cylinder.lean still calls cel0 (its one-row path); the per-row statement for a Cylinder batch of >= 10 rows follows from "
-        "celv_rowwise only off the band. cel_iter (n < 15 pre-loop, then cel_iterv on all rows until the slowest has met its test): modelled (celIterV, kern stream celiter rows), "
-        "a row gets as many passes as the slowest row of the batch — measured effect on Circle getB <= 6e-16 relative (1e-8 exit test of a quadratically convergent iteration); "
-        "no row-wise theorem. el3 / el3v (n < 10 switch, CylinderSegment): only the control-flow skeleton of el3v's main loop is modelled (MaskedLoop: body on mask10, test on all "
+        "Cylinder batches: BHJM_magnet_cylinder / magnet_cylinder_axial_Bfield / magnet_cylinder_diametral_Hfield ARE modelled on whole batches as coded (Model/CylinderBatch.lean: per-row "
+        "masks, the sub-batch of mask_pol_tv rows, within it the slice of mask_general rows on which cel is called, the sub-batch of mask_pol_ax rows, masked write-back, cel = the "
+        "dispatcher) and tied by the cylbatch rows of the kern stream (1..40 rows, sub-batch sizes straddling 10 separately, rows on r = r0, on the axis, in-band moduli, repeated and "
+        "permuted rows; batches with axial polarization only: relative 1e-14, largest seen 8e-16 — the two cel paths differ by up to 7e-13 there; otherwise 1e-10, largest seen 3e-12, "
+        "scipy ellipk / ellipe against their cel0 forms). Proved: cylinder_batch_rowwise (every carrier, IEEE double included: row i of the batch = the one-row function with cel0 or "
+        "celv's per-entry loop according to the two sub-batch COUNTS and nothing else of the other rows), cylinder_batch_rowwise_small / _below_threshold (fewer than 10 rows reaching "
+        "each kernel: row-wise without exception, bit for bit), cylinder_batch_rowwise_off_band (exact arithmetic: row-wise for every batch if no cel modulus of a row is 0 or within "
+        "1e-6 of 1), cylinder_batch_perm, cylinder_row_depends_on_counts_only. NOT true and therefore not shown: row-wise across the threshold for rows with a modulus in the band — "
+        "observers within ~5e-7 radii of the axis (axial kernel) or farther than ~1400 radii (diametral kernel): cel_band_exact gives the two values (return expression before / after "
+        "the forced first pass, any p, c, s), cel_band_difference_le bounds their difference for the first-kind integral (p = c = s = 1) by (1-k)^2/15 <= 6.7e-14 relative; for general "
+        "p, c, s no bound is proved — measured through BHJM_magnet_cylinder on the real code <= 1.8e-12 relative (cylbatch rows: rows that differ between the batch and the single call, "
+        "all in the band; off the band the real batch row is bit-identical to the single call, checked on every cylbatch row). scipy's ellipk / ellipe inside the batch are modelled "
+        "per row through cel0 (they are elementwise ufuncs). "
+        "cel_iter (n < 15 pre-loop whose result is discarded, then cel_iterv on all rows): modelled (celIterV, kern stream celiter rows); cel_iterv_same_pass_count (every carrier: all "
+        "entries get the same number N of passes, N the first count at which all meet the exit test) and cel_iterv_passes_partial (exact arithmetic, rows of the loop's shape such as "
+        "the Circle kernel's: an entry that has met its test keeps meeting it, so N is the LARGEST of the entries' own pass counts, each entry alone would stop after its own N_i <= N, "
+        "and N is attained by the slowest entry, which gets exactly its own value); cel_iterv_extra_pass_at_fixed_point (a pass does not change the return expression at the fixed "
+        "point 2 sqrt(kk) = em). NOT shown: a bound on how much the N - N_i extra passes change an entry's value before the fixed point (it contracts quadratically with em - 2 sqrt(kk); "
+        "measured on Circle getB <= 6e-16 relative), i.e. entry i of cel_iterv(batch) = cel_iter0(batch[i]) is false in exact arithmetic and no tolerance statement replaces it. "
+        "el3 / el3v (n < 10 switch, CylinderSegment): only the control-flow skeleton of el3v's main loop is modelled (MaskedLoop: body on mask10, test on all "
         "entries, post on mask11, mask10 = mask11) and proved row-wise for abstract per-entry statements (el3v_loop_rowwise_partial; that every statement under a mask acts on the "
-        "entry's own variables is read off the source); the VALUES of el3 on a batch are modelled entry by entry through the port of the scalar el30 and tied by the el3batch rows "
+        "entry's own variables is read off the source; el3v's prologue masks are not modelled); the VALUES of el3 on a batch are modelled entry by entry through the port of the scalar el30 and tied by the el3batch rows "
         "of the kern stream (real el3 / el3v on batches of 1..40 entries, relative 1e-12, largest seen 3e-15; el3v(batch)[i] bit-identical to el3v([batch[i]]) on the real code); "
         "for x < 0 in the logarithmic branch (bo false, bk false) el30 raises ValueError (int(nan)) where el3v returns NaN (known finding el3-nan-to-int; public API: "
         "1-9 vs >= 10 observers). CylinderSegment's all-on-surface early return: element-vs-single-call oracle only",
@@ -38,11 +54,11 @@ def run(ctx, model_ok):
         ctx.cov["correspondence_trimesh_batch"] = trimesh_family.run_batch_stream(ctx, ctx.scale(80, 2500))
         from corr import poly_family
         ctx.cov["correspondence_poly"] = poly_family.run_stream(ctx, ctx.scale(150, 5000))
-        # celv / cel on whole batches (Model/Celv.lean; Props/C06 celv_rowwise, celv_perm, cel_threshold_consistent_partial), cel_iter batches, cel0
+        # celv / cel on whole batches (Model/Celv.lean; Props/C06 celv_rowwise, celv_perm, cel_threshold_consistent_partial), BHJM_magnet_cylinder on whole batches (Model/CylinderBatch.lean; cylinder_batch_rowwise, cylinder_batch_rowwise_off_band, cylinder_batch_perm), cel_iter batches, cel0
         from corr import kern_family
-        kst = kern_family.run_stream(ctx, ctx.scale(150, 5000), only=["celbatch", "celbatch", "el3batch", "celiter", "cel0"])
+        kst = kern_family.run_stream(ctx, ctx.scale(150, 5000), only=["celbatch", "cylbatch", "celbatch", "el3batch", "cylbatch", "celiter", "cel0"])
         kst.pop("samples", None)
-        ctx.cov["correspondence_cel_batch"] = {k: kst[k] for k in ("rows", "per_kind", "disagreements", "celbatch", "el3batch", "branch")}
+        ctx.cov["correspondence_cel_batch"] = {k: kst[k] for k in ("rows", "per_kind", "disagreements", "celbatch", "cylbatch", "el3batch", "branch")}
     # the CylinderSegment theorems are about Model/CylSeg*.lean: is the frozen translation still what the source says, and does the port agree with the real code?
     from checks import _cylseg
     _cylseg.run(ctx, ctx.scale(300, 10000))
